@@ -20,7 +20,8 @@
 From Coq Require Import List Arith ZArith Bool Lia.
 Import ListNotations.
 
-Record cst := mkcst { n0 : nat; n1 : nat; n2 : nat; n3 : nat; nd : nat; done : bool; fired : nat; under : nat }.
+Record cst := mkcst { n0 : nat; n1 : nat; n2 : nat; n3 : nat; nd : nat; done : bool; fired : nat; under : nat;
+                      uclosed : bool (* the underlying connection has been closed (by a Close call, or by a layer below the wrapper) *) }.
 
 Inductive clabel :=
 | CUnder      (* a goroutine runs c.close() *)
@@ -28,42 +29,51 @@ Inductive clabel :=
 | CEnterSkip  (* a goroutine (possibly after waiting for the mutex) finds done set: returns *)
 | CFire       (* the goroutine inside Do runs onClose *)
 | CExit       (* ... stores done, releases the mutex, returns *)
-| CDirect.    (* shape without sync.Once: onClose() is called directly *)
+| CDirect     (* shape without sync.Once: onClose() is called directly *)
+| CUnderEarly. (* shape "return early when the underlying Close reports net.ErrClosed": a goroutine runs c.close() on an
+                 already closed connection and returns without reaching the Once *)
 
-Definition cstep (once : bool) (s : cst) (l : clabel) : option cst :=
+Definition cstep (once early : bool) (s : cst) (l : clabel) : option cst :=
   match l with
   | CUnder => match n0 s with
-              | S k => Some (mkcst k (S (n1 s)) (n2 s) (n3 s) (nd s) (done s) (fired s) (S (under s)))
+              | S k => if early && uclosed s then None   (* this caller takes the early return instead *)
+                       else Some (mkcst k (S (n1 s)) (n2 s) (n3 s) (nd s) (done s) (fired s) (S (under s)) true)
               | O => None end
   | CEnterRun => if once && negb (done s) && (n2 s + n3 s =? 0) then
                    match n1 s with
-                   | S k => Some (mkcst (n0 s) k (S (n2 s)) (n3 s) (nd s) (done s) (fired s) (under s))
+                   | S k => Some (mkcst (n0 s) k (S (n2 s)) (n3 s) (nd s) (done s) (fired s) (under s) (uclosed s))
                    | O => None end
                  else None
   | CEnterSkip => if once && done s then
                     match n1 s with
-                    | S k => Some (mkcst (n0 s) k (n2 s) (n3 s) (S (nd s)) (done s) (fired s) (under s))
+                    | S k => Some (mkcst (n0 s) k (n2 s) (n3 s) (S (nd s)) (done s) (fired s) (under s) (uclosed s))
                     | O => None end
                   else None
   | CFire => match n2 s with
-             | S k => Some (mkcst (n0 s) (n1 s) k (S (n3 s)) (nd s) (done s) (S (fired s)) (under s))
+             | S k => Some (mkcst (n0 s) (n1 s) k (S (n3 s)) (nd s) (done s) (S (fired s)) (under s) (uclosed s))
              | O => None end
   | CExit => match n3 s with
-             | S k => Some (mkcst (n0 s) (n1 s) (n2 s) k (S (nd s)) true (fired s) (under s))
+             | S k => Some (mkcst (n0 s) (n1 s) (n2 s) k (S (nd s)) true (fired s) (under s) (uclosed s))
              | O => None end
   | CDirect => if once then None else
                match n1 s with
-               | S k => Some (mkcst (n0 s) k (n2 s) (n3 s) (S (nd s)) (done s) (S (fired s)) (under s))
+               | S k => Some (mkcst (n0 s) k (n2 s) (n3 s) (S (nd s)) (done s) (S (fired s)) (under s) (uclosed s))
                | O => None end
+  | CUnderEarly => if early && uclosed s then
+                     match n0 s with
+                     | S k => Some (mkcst k (n1 s) (n2 s) (n3 s) (S (nd s)) (done s) (fired s) (S (under s)) true)
+                     | O => None end
+                   else None
   end.
 
-Fixpoint crun (once : bool) (s : cst) (ls : list clabel) : option cst :=
+Fixpoint crun (once early : bool) (s : cst) (ls : list clabel) : option cst :=
   match ls with
   | [] => Some s
-  | l :: r => match cstep once s l with Some s' => crun once s' r | None => None end
+  | l :: r => match cstep once early s l with Some s' => crun once early s' r | None => None end
   end.
 
-Definition cinit (n : nat) : cst := mkcst n 0 0 0 0 false 0 0.
+(* n callers; pre: a layer below the wrapper has already closed the connection *)
+Definition cinit (n : nat) (pre : bool) : cst := mkcst n 0 0 0 0 false 0 0 pre.
 Definition cfinal (s : cst) : Prop := n0 s = 0 /\ n1 s = 0 /\ n2 s = 0 /\ n3 s = 0.
 Definition cfinalb (s : cst) : bool := (n0 s =? 0) && (n1 s =? 0) && (n2 s =? 0) && (n3 s =? 0).
 
